@@ -1,9 +1,10 @@
 #!/bin/bash
-# usage: seedverify.sh <Cxx> <a|b>  — verifies a seeded change from /tmp/seeds against the current /repo HEAD:
+# usage: seedverify.sh <Cxx> <a|b>  — verifies a seeded change (/verif/seeded/<Cxx>-<v>, else /tmp/seeds/<Cxx>/<v>) against the current /repo HEAD:
 #  (1) demo passes on the clean tree, (2) patch applies + builds and the demo fails, (3) the existing suite passes with the patch.
 # Writes /verif/seeded/<Cxx>-<v>/{patch.diff,demo_test.go,NOTES.md,verify.log}; prints a one-line verdict.
 id=$1; v=$2
-src=/tmp/seeds/$id/$v
+src=/verif/seeded/$id-$v
+[ -f $src/patch.diff ] || src=/tmp/seeds/$id/$v
 [ -f $src/patch.diff ] || { echo "$id/$v: no patch"; exit 2; }
 export GOFLAGS=-mod=mod GOPROXY=off GOSUMDB=off GOTOOLCHAIN=local
 D=$(mktemp -d /tmp/seedverify.XXXXXX)
@@ -27,7 +28,7 @@ verdict="clean_demo=$clean patched_demo=$patched suite_with_patch=$suite"
 ok=no; [ $clean -eq 0 ] && [ $patched -ne 0 ] && [ $suite -eq 0 ] && ok=yes
 out=/verif/seeded/$id-$v
 if [ $ok = yes ]; then
-  mkdir -p $out; cp $src/patch.diff $src/demo_test.go $src/NOTES.md $out/ 2>/dev/null
+  mkdir -p $out; [ "$src" = "$out" ] || cp $src/patch.diff $src/demo_test.go $src/NOTES.md $out/ 2>/dev/null
   { echo "verified against /repo $(git -C /repo rev-parse --short HEAD): $verdict"; echo "demo placed at $dest/$name, run pattern: $runpat"; echo "--- patched demo output (tail)"; tail -15 $log.patched; } > $out/verify.log
 fi
 echo "$id/$v: $ok ($verdict) demo_dir=$dest"
